@@ -106,8 +106,10 @@ def tlc(module, cfg=None, workers=None, simulate=None, depth=None, env=None,
     JSON records the spec prints through PrintT(ToJson(...)) are collected."""
     cwd = cwd or SPEC
     cfg = cfg or module + ".cfg"
-    md = fresh_dir(os.path.join(WORK, "tlc", "%s-%d-%d" % (module, os.getpid(), int(time.time() * 1000) % 10**9)))
+    md = fresh_dir(os.path.join(WORK, "tlc", "%s-%d-%s" % (module, os.getpid(), os.urandom(6).hex())))
     jopts = ["-Xmx" + xmx, "-XX:+UseParallelGC", "-DTLA-Library=" + SPEC]
+    if os.environ.get("VERIF_TLC_STRICT", "0") == "1":
+        jopts.append("-Dtlc2.value.impl.LazyValue.off=true")   # call-by-value: every operator argument / LET evaluated once
     if dfs:
         jopts.append("-Dtlc2.tool.queue.IStateQueue=StateDeque")
     cmd = ["tlc"]   # wrapper on PATH: has the CommunityModules on its classpath
